@@ -70,7 +70,7 @@ func (p *Prog) modArrays(fc *FuncContract, m string) []string {
 	m = strings.TrimSpace(m)
 	switch m {
 	case "SEQ":
-		return []string{"SEQ_Int", "SEQ_String", "SEQ_Bool"}
+		return []string{"SEQ_Int", "SEQ_String", "SEQ_Bool", "LEN"}
 	case "MAP":
 		return []string{"MAPV", "MAPD"}
 	}
@@ -170,7 +170,7 @@ func (p *Prog) implFieldArrays(iface types.Type) []string {
 func (p *Prog) readArrays(pk *types.Package, r string) []string {
 	r = strings.TrimSpace(r)
 	switch r {
-	case "SEQ_Int", "SEQ_String", "SEQ_Bool", "BOX_Int", "BOX_String", "BOX_Bool":
+	case "SEQ_Int", "SEQ_String", "SEQ_Bool", "LEN", "BOX_Int", "BOX_String", "BOX_Bool":
 		return []string{r}
 	}
 	dot := strings.LastIndex(r, ".")
@@ -190,7 +190,9 @@ func (p *Prog) readArrays(pk *types.Package, r string) []string {
 func (p *Prog) arrSortByName(name string) string {
 	switch {
 	case strings.HasPrefix(name, "SEQ_"):
-		return "(Seq " + name[4:] + ")"
+		return "(Array Int " + name[4:] + ")"
+	case name == "LEN":
+		return "Int"
 	case name == "BOX_Int", name == "CELL_Int":
 		return "Int"
 	case name == "BOX_Bool", name == "CELL_Bool":
@@ -350,4 +352,33 @@ func (p *Prog) ownMode(arr string) string {
 		}
 	}
 	return p.ownCache[arr]
+}
+
+// wireRelevant: is array `name` in the read-set of some heap-dependent
+// specification function (no declared read-set: every non-scratch array is).
+func (p *Prog) wireRelevant(name string) bool {
+	if isScratchArr(name) {
+		return false
+	}
+	if p.relCache == nil {
+		p.relCache = map[string]bool{}
+		for _, sf := range p.CS.Specs {
+			if !sf.Heap {
+				continue
+			}
+			var pk *types.Package
+			if sp := p.SPkgs[sf.PkgPath]; sp != nil {
+				pk = sp.Pkg
+			}
+			for _, r := range sf.Reads {
+				for _, an := range p.readArrays(pk, r) {
+					p.relCache[an] = true
+				}
+			}
+		}
+	}
+	if len(p.relCache) == 0 {
+		return true
+	}
+	return p.relCache[name]
 }
